@@ -498,6 +498,12 @@ func c01Reference(cfg *C01Cfg) (map[string]string, string) {
 func c01Run(cfg *C01Cfg, ch vs.Chooser, trace bool) (*Outcome, *vs.Result) {
 	allowed, errs := c01Reference(cfg)
 	if errs != "" {
+		if strings.Contains(errs, "panics=[{") {
+			// a purely sequential order of the calls already panics / calls logrus.Fatal: a violation, not a harness error
+			out := &Outcome{Obs: "a sequential order crashes"}
+			out.Violations = append(out.Violations, Viol{Oracle: "sequential-order-crashes", Sig: "sequential-order-crashes:" + strings.Join(cfg.Threads, "||"), Detail: errs})
+			return out, &vs.Result{}
+		}
 		return nil, &vs.Result{Fatal: errs}
 	}
 	o, res := c01Exec(cfg, ch, trace, nil)
